@@ -6,7 +6,11 @@ package main
 //   provider20 — C20: the real SelfManaged receiver (mDNS switched off by the
 //                hook tools/hooks/cluster/hooks.go) fed with handshakes,
 //                member lists and unreachable reports.
-// Both run on an engine whose actor.Remoter is an in-memory recorder.
+//   node1820   — C18 ∘ C20: the real SelfManaged receiver (same hook) and the
+//                real agent of one cluster.Cluster together, fed with the
+//                provider messages; the agent's Members()/HasKind()/events
+//                are observed after each one.
+// All run on an engine whose actor.Remoter is an in-memory recorder.
 
 import (
 	"encoding/json"
@@ -360,7 +364,176 @@ func runProvider20(raw json.RawMessage) (res any, err error) {
 	return out, nil
 }
 
+// -------------------------------------------------------------- node1820
+
+func runNode1820(raw json.RawMessage) (res any, err error) {
+	var c providerCase
+	if err = json.Unmarshal(raw, &c); err != nil {
+		return nil, err
+	}
+	quiet()
+	out := make([]agentObs, 0, len(c.Hist)+1)
+	defer func() {
+		if v := recover(); v != nil {
+			out = append(out, agentObs{Err: "panic: " + fmt.Sprint(v)})
+			res, err = out, nil
+		}
+	}()
+	e, err := actor.NewEngine(actor.NewEngineConfig().WithRemote(&memRemote{addr: hostName(c.Self.Host)}))
+	if err != nil {
+		return nil, err
+	}
+	events := make(chan cluster.VerifProviderEvent, 4096)
+	provider := cluster.VerifSelfManagedProvider(cluster.NewSelfManagedConfig(),
+		func(ev cluster.VerifProviderEvent) {
+			select {
+			case events <- ev:
+			default:
+			}
+		})
+	selfID := idName(c.Self.ID)
+	cl, err := cluster.New(cluster.NewConfig().WithEngine(e).WithID(selfID).
+		WithProvider(provider).WithRequestTimeout(waitLong))
+	if err != nil {
+		return nil, err
+	}
+	for _, k := range c.Self.Kinds {
+		cl.RegisterKind(kindName(k), func() actor.Receiver { return noopReceiver{} }, cluster.NewKindConfig())
+	}
+	var (
+		mu     sync.Mutex
+		joins  []int
+		leaves []int
+	)
+	flushed := make(chan int, 16)
+	monitor := e.SpawnFunc(func(ctx *actor.Context) {
+		switch ev := ctx.Message().(type) {
+		case cluster.MemberJoinEvent:
+			mu.Lock()
+			joins = append(joins, idNum(ev.Member.ID))
+			mu.Unlock()
+		case cluster.MemberLeaveEvent:
+			mu.Lock()
+			leaves = append(leaves, idNum(ev.Member.ID))
+			mu.Unlock()
+		case flushEvent:
+			flushed <- ev.n
+		}
+	}, "monitor", actor.WithID("c1820"))
+	e.Subscribe(monitor)
+	cl.Start() // the real agent and the (hooked) real provider
+	pid := actor.NewPID(e.Address(), "provider/"+selfID)
+
+	await := func(typ string) (cluster.VerifProviderEvent, bool) {
+		deadline := time.After(waitLong)
+		for {
+			select {
+			case ev := <-events:
+				if ev.Msg == typ {
+					return ev, true
+				}
+			case <-deadline:
+				return cluster.VerifProviderEvent{}, false
+			}
+		}
+	}
+	// the provider has handled the message: whatever it sent the agent is in
+	// the agent's inbox ahead of our requests
+	observe := func(n int, ev cluster.VerifProviderEvent, ok bool) (agentObs, bool) {
+		if !ok {
+			return agentObs{Err: "timeout waiting for the provider"}, false
+		}
+		if ev.Panicked {
+			return agentObs{Err: "provider panicked"}, false
+		}
+		o := agentObs{IDs: memberIDs(cl.Members())}
+		for k := 0; k < kindUniverse; k++ {
+			o.Kinds = append(o.Kinds, cl.HasKind(kindName(k)))
+		}
+		e.BroadcastEvent(flushEvent{n})
+		select {
+		case <-flushed:
+		case <-time.After(waitLong):
+			o.Err = "monitor flush timeout"
+		}
+		mu.Lock()
+		o.Joins, o.Leaves = joins, leaves
+		joins, leaves = nil, nil
+		mu.Unlock()
+		sort.Ints(o.Joins)
+		sort.Ints(o.Leaves)
+		if o.Joins == nil {
+			o.Joins = []int{}
+		}
+		if o.Leaves == nil {
+			o.Leaves = []int{}
+		}
+		return o, o.Err == ""
+	}
+
+	ev, ok := await("actor.Started")
+	o, cont := observe(0, ev, ok)
+	out = append(out, o)
+	for n, h := range c.Hist {
+		if !cont {
+			break
+		}
+		var op, typ string
+		if err = json.Unmarshal(h[0], &op); err != nil {
+			return nil, err
+		}
+		switch op {
+		case "hs":
+			var m memberJSON
+			var from int
+			if err = json.Unmarshal(h[1], &m); err != nil {
+				return nil, err
+			}
+			if err = json.Unmarshal(h[2], &from); err != nil {
+				return nil, err
+			}
+			peer := actor.NewPID(hostName(from), "provider/"+idName(from))
+			e.SendWithSender(pid, &cluster.Handshake{Member: toMember(m)}, peer)
+			typ = "*cluster.Handshake"
+		case "ms":
+			var l []memberJSON
+			if err = json.Unmarshal(h[1], &l); err != nil {
+				return nil, err
+			}
+			ms := make([]*cluster.Member, len(l))
+			for i, m := range l {
+				ms[i] = toMember(m)
+			}
+			e.Send(pid, &cluster.Members{Members: ms})
+			typ = "*cluster.Members"
+		case "leave":
+			var addr int
+			if err = json.Unmarshal(h[1], &addr); err != nil {
+				return nil, err
+			}
+			e.BroadcastEvent(actor.RemoteUnreachableEvent{ListenAddr: hostName(addr)})
+			typ = "cluster.memberLeave"
+		default:
+			return nil, fmt.Errorf("bad op %q", op)
+		}
+		ev, ok = await(typ)
+		o, cont = observe(n+1, ev, ok)
+		out = append(out, o)
+	}
+	if !cont {
+		return out, nil
+	}
+	done := make(chan struct{})
+	go func() { cl.Stop(); <-e.Poison(monitor).Done(); close(done) }()
+	select {
+	case <-done:
+	case <-time.After(2 * time.Second):
+	}
+	return out, nil
+}
+
 func init() {
+	families["node1820"] = runNode1820
 	families["agent18"] = runAgent18
 	families["provider20"] = runProvider20
 }
